@@ -13,6 +13,7 @@ import (
 	"go/token"
 	"go/types"
 	"golang.org/x/tools/go/ssa/ssautil"
+	"strconv"
 	"strings"
 
 	"golang.org/x/tools/go/ssa"
@@ -68,6 +69,30 @@ func (c *c13) run() {
 	for _, fn := range fns {
 		for _, b := range fn.Blocks {
 			for _, ins := range b.Instrs {
+				// fmt.Sprintf("const SpecFile string = %q", content): the same literal producer
+				if call, isCall := ins.(*ssa.Call); isCall {
+					if sc := call.Call.StaticCallee(); sc != nil && sc.String() == "fmt.Sprintf" && len(call.Call.Args) == 2 {
+						if f, ok := constString(call.Call.Args[0]); ok && strings.Contains(f, "SpecFile") && strings.Contains(f, "const") {
+							nSites++
+							key := shortFn(fn) + ":SpecFile literal"
+							rest := strings.Replace(f, "%q", "", 1)
+							switch {
+							case strings.Count(f, "%q") != 1 || strings.Contains(rest, "%"):
+								c.r.Violation("C13/literal-by-quote", key, c.s.pos(call.Pos()), "the declaration is formatted with verbs other than a single %q")
+							case strings.ContainsAny(rest, "\"`\\"):
+								c.r.Violation("C13/literal-by-quote", key, c.s.pos(call.Pos()), "the format string contains quote/backslash characters around the %q literal")
+							default:
+								if v := variadicOperand(call.Call.Args[1], 0); v != nil && isStringOrBytes(v.Type()) {
+									c.r.OK("C13/literal-by-quote", key, c.s.pos(call.Pos()), "fmt.Sprintf(… %q …) of a string operand = strconv.Quote")
+									c.flow(v, key, 0)
+								} else {
+									c.r.Undecided("C13/literal-by-quote", key, c.s.pos(call.Pos()), "the %q operand is not a plain string/[]byte value")
+								}
+							}
+						}
+					}
+					continue
+				}
 				bo, ok := ins.(*ssa.BinOp)
 				if !ok || bo.Op != token.ADD {
 					continue
@@ -449,4 +474,36 @@ func (c *c13) sameFile() {
 		c.r.Check(readArg == loadArg, "C13/same-file", key, c.s.pos(rpos), "the file embedded ("+readArg.String()+") is not the file parsed ("+loadArg.String()+")")
 	}
 	c.r.FloorMin("os.ReadFile sites in package goag", n, 1)
+}
+
+// variadicOperand: the i-th element boxed into the variadic slice argument `s` of a call
+// (new [n]any; store MakeInterface(x) at index i; slice) — the value x before boxing.
+func variadicOperand(s ssa.Value, i int) ssa.Value {
+	sl, ok := s.(*ssa.Slice)
+	if !ok {
+		return nil
+	}
+	al, ok := sl.X.(*ssa.Alloc)
+	if !ok {
+		return nil
+	}
+	for _, ref := range *al.Referrers() {
+		ia, ok := ref.(*ssa.IndexAddr)
+		if !ok {
+			continue
+		}
+		k, ok := ia.Index.(*ssa.Const)
+		if !ok || k.Value == nil || k.Value.String() != strconv.Itoa(i) {
+			continue
+		}
+		for _, r2 := range *ia.Referrers() {
+			if st, ok := r2.(*ssa.Store); ok && st.Addr == ia {
+				if mi, ok := st.Val.(*ssa.MakeInterface); ok {
+					return mi.X
+				}
+				return st.Val
+			}
+		}
+	}
+	return nil
 }
